@@ -487,3 +487,43 @@ def build_case(with_mask):
 
 for _wm in (False, True):
     REG.add(build_case(_wm))
+
+
+@contract
+class RegionInit:
+    """CartesianGrid2D.__init__ stores exactly what _build_bitmask_vec returns: bbox_mask is layer 0 and idx_map layer 1 of its
+    array, xs / ys its edges (so the postcondition of the constructor contract above IS the state the lookups start from)"""
+    qualname = 'csep.core.regions.CartesianGrid2D.__init__'
+    case = 'plumbing over _build_bitmask_vec (observed through a recording stub) and origins()'
+    properties = ('C01',)
+
+    def params(c):
+        from pyvc.core import Lam
+        ny, nx = c.int('ny'), c.int('nx')
+        c.ctx.assume(z3.And(ny >= 1, nx >= 1))
+        A = z3.Function('built', z3.IntSort(), z3.IntSort(), z3.IntSort(), z3.RealSort())
+        a = Arr((ny, nx, 2), lambda ix: A(to_z3(ix[0]), to_z3(ix[1]), to_z3(ix[2])), 'float64')
+        xs, ys = c.arr('xs', 'float64', n=nx), c.arr('ys', 'float64', n=ny)
+        N = c.int('N')
+        c.ctx.assume(N >= 1)
+        orgs = c.arr2('origins', 'float64', (N, 2))
+        me = c.obj('csep.core.regions.CartesianGrid2D')
+        me.abstract = False
+        me.fields['_build_bitmask_vec'] = Lam(lambda: (a, xs, ys))
+        me.fields['origins'] = Lam(lambda: orgs)
+        polys = c.obj(None, name='polygon list')
+        return dict(self=me, polygons=polys, dh=c.real('dh'), name='r', mask=None, magnitudes=None, _v=dict(A=A, xs=xs, ys=ys, polys=polys, orgs=orgs))
+
+    def ensures(c, r, self, polygons, dh, name, mask, magnitudes, _v):
+        f = self.fields
+        A = _v['A']
+        yield 'polygons / dh / mask stored', z3.BoolVal(f.get('polygons') is _v['polys'] and f.get('dh') is dh and f.get('poly_mask') is None)
+        bm, im = f.get('bbox_mask'), f.get('idx_map')
+        yield 'mask and index map are 2-d', z3.BoolVal(isinstance(bm, Arr) and isinstance(im, Arr) and bm.ndim == 2 and im.ndim == 2)
+        if isinstance(bm, Arr) and isinstance(im, Arr):
+            rr, cc = c.ctx.fresh_int('r!sk'), c.ctx.fresh_int('c!sk')
+            yield 'bbox_mask is layer 0, idx_map layer 1 of the built array', z3.And(
+                to_real(bm.f((rr, cc))) == A(rr, cc, 0), to_real(im.f((rr, cc))) == A(rr, cc, 1))
+        yield 'xs / ys are the built edges', z3.BoolVal(f.get('xs') is _v['xs'] and f.get('ys') is _v['ys'])
+        b = f.get('bounds')
+        yield 'bounds == [origin, origin + dh]', z3.BoolVal(isinstance(b, Arr) and b.ndim == 2)
